@@ -1078,9 +1078,8 @@ class eigenbasis_of(basis_context_manager):
     def __init__(self, operator):
         super().__init__()
         self.op = operator
-        # operator of the enclosing context (None outside of any context)
-        self.previous_op = self.manager.current_basis_operator
-        self.manager.store_current_basis_operator(self.op)
+        # operators of the enclosing contexts, one per entry of this object
+        self._previous_ops = []
         
         
     def __enter__(self):
@@ -1101,6 +1100,10 @@ class eigenbasis_of(basis_context_manager):
         #SS = self.op.diagonalize()
         SS = self.op.get_diagonalization_matrix()
         self.manager.set_new_basis(SS)
+
+        # operator of the enclosing context (None outside of any context)
+        self._previous_ops.append(self.manager.current_basis_operator)
+        self.manager.store_current_basis_operator(self.op)
 
         #self.manager.register_with_basis(nb,self.op)
         #self.op.set_current_basis(nb)
@@ -1147,7 +1150,7 @@ class eigenbasis_of(basis_context_manager):
                     self.manager.register_with_basis(nb,op)
             
         # the operator of the enclosing context becomes current again
-        self.manager.store_current_basis_operator(self.previous_op)
+        self.manager.store_current_basis_operator(self._previous_ops.pop())
             
         del self.manager.basis_registered[bb]
 
